@@ -106,7 +106,21 @@ def run(rep, pdb, tier):
         t2 = fn["body"].get("expr")
         tt = c2.term(t2) if t2 is not None else None
         ok = len(es) == 1 and tt is not None and tt[0] == "call" and str(tt[1]).endswith("::poly_solve") and tt[3] == P(1)
-        if ok:
+        pus = [e for e in effects(pdb, c2) if e.kind == "push" and len(e.loops) == 1]
+        if not es and len(pus) == 1 and tt is not None and tt[0] == "call" and str(tt[1]).endswith("::poly_solve") and tt[3] == P(1):
+            # the copy built by in-order pushes into an empty Vec wrapped by Vector::create (an iterator chain is canonicalised to this)
+            e = pus[0]
+            r = for_range(c2, e.loops[0])
+            src = ("idx", F(P(0), "coeffs"), r[0]) if r else None
+            want = ("call", "complex::Complex<T>::new", src, num(0)) if real else src
+            tb = c2.binds.get(e.target[1]) if e.target[0] == "var" else None
+            ti = c2.term(tb.init) if tb is not None and tb.init is not None else None
+            fresh = ti is not None and ti[0] == "call" and str(ti[1]).endswith("::new") and len(ti) == 2
+            arg = tt[2]
+            argd = c2.def_term(arg) if arg[0] == "var" and c2.def_term(arg) is not None else arg
+            wrapped = argd == ("call", "vector::Vector<T>::create", e.target)
+            ok = r is not None and r[1:5] == (num(0), LEN(F(P(0), "coeffs")), False, False) and e.value == want and fresh and wrapped
+        elif ok:
             e = es[0]
             r = for_range(c2, e.loops[0]) if len(e.loops) == 1 else None
             src = ("idx", F(P(0), "coeffs"), r[0]) if r else None
